@@ -25,7 +25,8 @@ import pysmt
 from pysmt.solvers.solver import IncrementalTrackingSolver, SolverOptions, Solver, Model
 from pysmt.decorators import clear_pending_pop
 from pysmt.logics import convert_logic_from_string, Logic
-from pysmt.exceptions import SolverReturnedUnknownResultError
+from pysmt.exceptions import (SolverReturnedUnknownResultError,
+                              UnknownSolverAnswerError)
 from pysmt.fnode import FNode
 from pysmt.utils import assert_not_none
 
@@ -260,6 +261,12 @@ def _run_solver(idx, solver, logic, options, formula, signaling_queue, ctrl_pipe
             local_res = s.solve()
         except Exception as ex:
             signaling_queue.put((solver, ex))
+            return
+
+        if type(local_res) is not bool:
+            # Not a verdict: the solver is treated as a failed one
+            signaling_queue.put((solver, UnknownSolverAnswerError(
+                "Solver '%s' returned '%s'" % (solver, local_res))))
             return
 
         signaling_queue.put((idx, local_res))
